@@ -8,6 +8,7 @@ package main
 
 import (
 	"context"
+	"encoding/json"
 	"fmt"
 	mrand "math/rand"
 	"strings"
@@ -87,6 +88,30 @@ func isHotType(t string) bool {
 	return t == schedulers.HotRegionType || t == schedulers.ShuffleHotRegionType
 }
 
+// schedCluster returns the cluster of the input. For the schedulers without
+// flow statistics the cluster of the previous input is reused when only the
+// store loads differ (the stores are put again).
+func (cc *clusterCache) schedCluster(in *schedInput) (*mockcluster.Cluster, map[uint64]*regionsim.Region) {
+	e := in.Env
+	key := ""
+	if in.Hot == "" {
+		b, _ := json.Marshal(in.Regions)
+		key = e.key() + string(b)
+	}
+	if key != "" && key == cc.skey {
+		for i := 0; i < e.N; i++ {
+			cc.scl.PutStore(newStore(e, uint64(i+1), regionLevels[in.Load[i]], leaderLevels[in.Load[i]]))
+		}
+		return cc.scl, cc.ssims
+	}
+	if cc.scancel != nil {
+		cc.scancel()
+	}
+	cc.scl, cc.scancel, cc.ssims = buildSchedCluster(in)
+	cc.skey = key
+	return cc.scl, cc.ssims
+}
+
 func buildSchedCluster(in *schedInput) (*mockcluster.Cluster, context.CancelFunc, map[uint64]*regionsim.Region) {
 	e := in.Env
 	cl, cancel := newCluster(e)
@@ -142,17 +167,17 @@ func buildSchedCluster(in *schedInput) (*mockcluster.Cluster, context.CancelFunc
 	return cl, cancel, sims
 }
 
-func (rn *runner) runSched(in *schedInput) *violation {
+func (rn *runner) runSched(in *schedInput, cc *clusterCache) *violation {
 	statistics.Denoising = false
-	cl, cancel, sims := buildSchedCluster(in)
-	defer cancel()
+	cl, sims := cc.schedCluster(in)
 	ctx, cancel2 := context.WithCancel(context.Background())
 	defer cancel2()
 	oc := schedule.NewOperatorController(ctx, cl, nil)
 	mk := func() schedule.Scheduler {
 		if isHotType(in.Type) {
+			// hot-region dispatches on types {write, read}, shuffle-hot-region on {read, write}
 			t := 0
-			if in.Hot == "read" {
+			if (in.Hot == "read") != (in.Type == schedulers.ShuffleHotRegionType) {
 				t = 1
 			}
 			vclock.Enable(vclock.Epoch.Add(hotSeedDelay[t]))
